@@ -294,6 +294,11 @@ def r14_5_shared(repo: Repo, rep: Report):
     from hsa.rules.c20 import r20_1_fork_copies
 
     r20_1_fork_copies(repo, rep)
+    # round 7: the pranked sender reaches the callee through the caller field of the sub-message, for every call
+    # opcode that opens a new sender context (CALL, CALLCODE, STATICCALL) (shared with C09 R09.2)
+    from hsa.rules.c09 import r09_2_message_construction
+
+    r09_2_message_construction(repo, rep)
     # the caller's context (with its prank record) is deep-copied when a sub-call returns on several paths
     r09_1_snapshot_restore(repo, rep)
     # deal/store followed by a read: the read skips an earlier write only when the keys are proved different
